@@ -14,6 +14,7 @@
 -/
 import Csvq.Model.Proto
 import Csvq.Model.Analytic
+import Csvq.Model.AnalyticFull
 namespace Csvq.Drive.C17
 open Csvq Csvq.Proto Csvq.Analytic
 
@@ -99,10 +100,109 @@ def exec (fn : String) (a1 : Option Int) (a2 : Option Val) (ign : Bool) (w : Win
   | "count" => aggOverAt repoState cells (fun _ vs => Res.v (.int (vs.filter (fun v => !isNullV v)).length)) w p
   | "count_star" => aggOverAt repoState cells (fun _ vs => Res.v (.int vs.length)) w p
   | "listagg" => some (listAggOver cells (fun vs => Res.l (vs.filter (fun v => !isNullV v))) p)
+  | "listaggd" => some (listAggAnalytic cells (fun v => norm (profileOf v)) true (fun vs => Res.l (vs.filter (fun v => !isNullV v))) p)
+  | "jsonagg" => some (listAggOver cells (fun vs => Res.l vs) p)
+  | "groups" => some (((cumGroups eqv p none []).zipIdx.flatMap fun gk => gk.1.map fun idx => (idx, Res.v (.int (gk.2 + 1)))))
+  | "sum" => some ((aggOverP prof (aggSum ∘ dist) w p).map fun r => (r.1, Res.v r.2))
+  | "avg" => some ((aggOverP prof (aggAvg ∘ dist) w p).map fun r => (r.1, Res.v r.2))
+  | "min" => some ((aggOverP prof (aggMin ∘ dist) w p).map fun r => (r.1, Res.v r.2))
+  | "max" => some ((aggOverP prof (aggMax ∘ dist) w p).map fun r => (r.1, Res.v r.2))
+  | "median" => some ((aggOverP prof (aggMedian ∘ dist) w p).map fun r => (r.1, Res.v r.2))
+  | "countd" => some ((aggOverP prof (aggCount ∘ dist) w p).map fun r => (r.1, Res.v r.2))
   | _ => none
+where
+  prof : Nat → Profile := fun i => profileOf (cells i)
+  dist : List Profile → List Profile := fun l => if ign then distinctProfiles l else l
+
+/-- ORDER BY item token: `a`/`d` followed by `f`/`l`/`-` (default: ASC → NULLS FIRST, DESC → NULLS LAST) -/
+def parseItem (s : String) : Option OrdItem :=
+  match s.toList with
+  | [d, n] =>
+    let dir? : Option Dir := if d = 'a' then some .asc else if d = 'd' then some .desc else none
+    match dir? with
+    | none => none
+    | some dir =>
+      if n = 'f' then some ⟨dir, .first⟩
+      else if n = 'l' then some ⟨dir, .last⟩
+      else if n = '-' then some ⟨dir, match dir with | .asc => .first | .desc => .last⟩
+      else none
+  | _ => none
+
+def parseItems (s : String) : Option (List OrdItem) :=
+  if s = "-" then some [] else (s.splitOn ",").mapM parseItem
+
+/-- rows of the end-to-end op, in TABLE order: id part{npart} sortcell{nsort} arg -/
+partial def parseARows (npart nsort : Nat) : List String → Option (List ARow)
+  | [] => some []
+  | idt :: rest => do
+    let id ← idt.toNat?
+    let part ← (rest.take npart).mapM parseProfile
+    if part.length ≠ npart then none
+    let rest := rest.drop npart
+    let cells ← (rest.take nsort).mapM parseSortCell
+    if cells.length ≠ nsort then none
+    match rest.drop nsort with
+    | [] => none
+    | a :: more => do
+      let arg ← parseVal a
+      let tl ← parseARows npart nsort more
+      pure (⟨id, part, cells, profileOf arg⟩ :: tl)
+
+def showCol (ids : List Nat) (col : List (Option Res)) : String :=
+  let out : Array String := Array.replicate ids.length "?"
+  let out := (ids.zip col).foldl (fun (o : Array String) rc =>
+    o.setIfInBounds rc.1 (match rc.2 with | some r => showRes r | none => "?")) out
+  if out.isEmpty then "-" else String.intercalate "," out.toList
+
+/-- `c17.full:<fn> a1 a2 ign frame nsort items npart rows…` — Analyze end to end: the model orders the rows
+    itself (C07's reference sort), computes the partition keys itself (C04's `norm`) -/
+def c17full (fn : String) (args : List String) : String :=
+  let bad := "bad-op"
+  match args with
+  | a1 :: a2 :: ign :: fr :: ns :: its :: np :: rest =>
+    match parseOpt String.toInt? a1, parseOpt parseVal a2, parseBool ign, parseWindow fr, ns.toNat?, parseItems its, np.toNat? with
+    | some a1, some a2, some ign, some w, some nsort, some its, some npart =>
+      match parseARows npart nsort rest with
+      | none => bad
+      | some rows =>
+        let hasOrder := decide (0 < nsort)
+        let execV : List ARow → List Nat → List (Nat × Res) := fun view p =>
+          (exec fn a1 a2 ign w (peersOf hasOrder view) (cellsOf view) p).getD []
+        let view := sortView its hasOrder rows
+        if ((partitionsOf (view.map keyOfRow)).any fun part =>
+            (exec fn a1 a2 ign w (peersOf hasOrder view) (cellsOf view) part.2).isNone) then "E"
+        else
+          let res := analyzeFull its hasOrder execV rows
+          showCol (res.map fun r => r.1.id) (res.map Prod.snd)
+    | _, _, _, _, _, _, _ => bad
+  | _ => bad
+
+/-- `c17.glistagg - - distinct frame nsort items rows…` (rows: id keyid sortcell{nsort} arg, TABLE order):
+    grouped LISTAGG … WITHIN GROUP (ORDER BY items); answer: the groups in order of first appearance -/
+def c17glistagg (args : List String) : String :=
+  let bad := "bad-op"
+  match args with
+  | _ :: _ :: dis :: _ :: ns :: its :: rest =>
+    match parseBool dis, ns.toNat?, parseItems its with
+    | some distinct, some nsort, some its =>
+      match parseRows nsort rest with
+      | none => bad
+      | some rows =>
+        let arr := rows.toArray
+        let groups := partitionsOf (rows.map Row.key)
+        let one := fun (g : Nat × List Nat) =>
+          let grp : List ARow := g.2.filterMap fun i => arr[i]?.map fun r => (⟨r.id, [], r.sort, profileOf r.arg⟩ : ARow)
+          showRes (listAggGrouped its (decide (0 < nsort)) (fun v => norm (profileOf v)) distinct
+            (fun vs => Res.l (vs.filter fun v => !isNullV v)) grp)
+        if groups.isEmpty then "-" else String.intercalate "|" (groups.map one)
+    | _, _, _ => bad
+  | _ => bad
 
 def c17 (fn : String) (args : List String) : String :=
   let bad := "bad-op"
+  if fn.startsWith "full:" then c17full (fn.drop 5).toString args
+  else if fn = "glistagg" then c17glistagg args
+  else
   match args with
   | a1 :: a2 :: ign :: fr :: ns :: rest =>
     match parseOpt String.toInt? a1, parseOpt parseVal a2, parseBool ign, parseWindow fr, ns.toNat? with
